@@ -459,6 +459,11 @@ class SymStr:
                 if is_concrete(p0):
                     return [(OK, ("abs", "siter", tuple(("char", ch) for ch in concrete(p0)), 0), st)]
                 return [(OK, unk("chars"), st)]
+            if c in ("core::str::<impl str>::bytes", "core::str::<impl str>::as_bytes"):
+                if is_concrete(p0):
+                    items = tuple(("int", b) for b in concrete(p0).encode("utf-8"))
+                    return [(OK, ("abs", "siter", items, 0) if c.endswith("::bytes") else ("abs", "svec", items), st)]
+                return [(OK, unk("bytes"), st)]
             if c == "core::str::<impl str>::split_whitespace":
                 toks = tokens_ws(p0)
                 if toks is None:
